@@ -63,6 +63,10 @@ pub trait ParameterValueDisplay<'a>: fmt::Display {
 
 impl<'a> ParameterValueDisplay<'a> for &str {
   fn fmt_param(&self, c: &mut Cursor<&'a mut [u8]>) -> Result<(), SerializeError> {
+    // A line feed would end the frame and the decoder treats NUL as end of input.
+    if self.contains(['\n', '\0']) {
+      return Err(SerializeError::Other(anyhow::anyhow!("parameter value contains a line feed or NUL character")));
+    }
     if self.is_empty() {
       return write_fmt_to_cursor(c, format_args!("\\\"\\\""));
     }
